@@ -23,12 +23,44 @@ Stride  == atoi(Env("VERIF_STRIDE", "1"))      \* every Stride-th flag seed ...
 EStride == atoi(Env("VERIF_ESTRIDE", "1"))     \* ... and every EStride-th entry of the pool
 Phase   == atoi(Env("VERIF_PHASE", "0"))
 
-EntryOK(e) == (EntryNo(e) * 11 + Phase) % EStride = 0
+Mix(n)     == ((n + 1 + 131 * (Phase % 97)) * 7919) % 10007          \* decorrelates the sample from the fields
+EntryOK(e) == Mix(EntryNo(e)) % EStride = 0
 
-GenInit == Init /\ ((SeedNo(cfg.f) * 7 + Phase) % Stride = 0)
+GenInit == Init /\ (Mix(SeedNo(cfg.f)) % Stride = 0)
 GenNext == \/ PickAxes
            \/ AddInclude /\ EntryOK(cfg'.inc[Len(cfg'.inc)])
            \/ AddExclude /\ EntryOK(cfg'.exc[Len(cfg'.exc)])
+
+(* Random walks over the WHOLE quantifier domain of the property (-simulate): every subset of the five
+   repeated fields, every tri-state of the seven flags, up to MaxInc + MaxExc entries with any fields
+   omitted.  RandomElement makes each step a single random successor (TLC's simulator evaluates the
+   invariants on every successor of a step, so wide steps would be slow). *)
+OneOf(seq)    == seq[RandomElement(1..Len(seq))]
+\* (the dummy parameter keeps TLC from caching these as constants)
+SomeTri(d)    == OneOf(<<"unset", "unset", "unset", "unset", "true", "false">>)
+SomeSubset(S) == IF RandomElement(1..3) = 1 THEN {} ELSE RandomElement(SUBSET S)
+SomeField(n)  == IF RandomElement(1..5) <= 3 THEN 0 ELSE RandomElement(1..n)
+SomeEntry(d)  == [v |-> SomeField(3), p |-> SomeField(3), c |-> SomeField(3), z |-> SomeField(NZ), s |-> SomeField(5),
+                  tls |-> SomeTri(d), cert |-> SomeTri(d), lim |-> SomeTri(d)]
+
+WalkInit == /\ cfg = [f |-> [vs |-> {}, ps |-> {}, cs |-> {}, zs |-> {}, ss |-> {}, h2c |-> "unset", tls |-> "unset",
+                             certs |-> "unset", trailers |-> "unset", hdh1 |-> "unset", get |-> "unset", lim |-> "unset"],
+                      inc |-> <<>>, exc |-> <<>>]
+            /\ pc = "pick" /\ feat = Null /\ acc = {} /\ ix = 1 /\ out = Null
+
+WalkNext ==
+  \/ /\ pc = "pick"
+     /\ cfg' = [cfg EXCEPT !.f = [vs |-> SomeSubset(Versions), ps |-> SomeSubset(Protocols), cs |-> SomeSubset(CodecsAll),
+                                  zs |-> SomeSubset(Compressions), ss |-> SomeSubset(StreamTypes),
+                                  h2c |-> SomeTri(1), tls |-> SomeTri(2), certs |-> SomeTri(3), trailers |-> SomeTri(4),
+                                  hdh1 |-> SomeTri(5), get |-> SomeTri(6), lim |-> SomeTri(7)]]
+     /\ pc' = "features" /\ UNCHANGED <<feat, acc, ix, out>>
+  \/ /\ pc = "features" /\ Len(cfg.inc) < MaxInc /\ cfg.exc = <<>>
+     /\ cfg' = [cfg EXCEPT !.inc = Append(cfg.inc, SomeEntry(Len(cfg.inc)))]
+     /\ UNCHANGED <<pc, feat, acc, ix, out>>
+  \/ /\ pc = "features" /\ Len(cfg.exc) < MaxExc
+     /\ cfg' = [cfg EXCEPT !.exc = Append(cfg.exc, SomeEntry(Len(cfg.exc)))]
+     /\ UNCHANGED <<pc, feat, acc, ix, out>>
 
 Expectation(c) ==
   LET fe == FeatErrs(c.f) IN
